@@ -107,7 +107,7 @@ def count_inputs(bundle, depth=0):
             # `&` followed by blanks or a `$` comment, a line longer than 80 columns, a tab: how the line is cut and
             # continued is the business of C10/C11, not of this light test
             body = l.split("$")[0]
-            if ("&" in l and not l.endswith("&")) or len(l.expandtabs(8)) > 80 or (body.rstrip().endswith("&") and not is_comment_line(l) and "$" in l):
+            if "&" in l or len(l.expandtabs(8)) > 80 or (body.rstrip().endswith("&") and not is_comment_line(l) and "$" in l):
                 ambiguous[0] = True
         sp = split_file(text) if top else split_file("t\n" + text)
         for b in range(3):
@@ -294,6 +294,9 @@ def classify_exception(e):
     site = "?"
     for fr in reversed(tb):
         fn = os.path.realpath(fr.filename)
+        # container look-ups and comparisons (__getitem__, __eq__, ...) are not the site: their caller is
+        if fr.name.startswith("__") and fr.name.endswith("__") and fr.name != "__init__":
+            continue
         if fn.startswith(mroot):
             site = os.path.relpath(fn, os.path.join(os.path.realpath(REPO), "montepy")) + ":" + fr.name
             break
